@@ -218,6 +218,22 @@ CLAIMED = {
              'metaclasses and class redefinition are outside the model. All theorems closed under the global context.',
         technique='Coq proofs by mutual induction over a class-dictionary model (member-wise, idempotent, kind-preserving, identities) + differential correspondence with real class and member-by-member decoration',
         design='5/C13'),
+    'C08': dict(
+        text='Machine-checked (Coq 8.16.1): with generator bodies as arbitrary coinductive resumable automata and '
+             'CPython\'s protocol on asynchronous generator objects (not started / suspended / finished x anext, '
+             'asend, athrow, aclose) as a step function, beartype\'s pure-Python "async yield from" wrapper is proved '
+             'bisimilar to the wrapped generator: for every body and every finite operation sequence in which '
+             'GeneratorExit is not thrown by hand and the body does not yield while handling it, the decorated '
+             'generator gives exactly the original\'s outcomes; the excluded case is machine-refuted (F28). The '
+             'template\'s control structure is matched statement by statement against the model on every run; '
+             'table-driven bodies are run for real as async generators, sync generators and coroutines, original '
+             'and decorated, and compared (outcomes, the body\'s own action log, inspect kinds) with each other and '
+             'with the model.',
+        note='Trusted: Coq kernel; agentemplate.py (fail-closed structural match); the hand-written protocol model '
+             '(tied by correspondence with CPython itself); synchronous generators and coroutines rely on CPython\'s '
+             '`yield from` / `await` and are compared on the implementation only. All theorems closed under the global context.',
+        technique='Coq bisimulation proof over coinductive generator bodies and a protocol step function + translator-checked template structure + differential correspondence with CPython and beartype',
+        design='5/C08'),
     'C04': dict(
         text='Machine-checked (Coq 8.16.1): for every signature over the five parameter kinds with pairwise '
              'distinct names and every call that CPython\'s binding rule accepts, the values selected by the '
